@@ -14,7 +14,7 @@ ASSUMPTIONS = ["hashlib (OpenSSL) is the reference for the primitives; RIPEMD-16
 NSHARDS = {"quick": 16, "thorough": 32}
 BUDGET_S = {"quick": 200, "thorough": 1500}
 MIN_HITS = {
-    'quick': {"hash": 903, "hmac": 675, "pbkdf2": 201, "chunks": 5642, "mnemonic": 2, "reuse": 42},
+    'quick': {"hash": 903, "hmac": 759, "pbkdf2": 201, "chunks": 6164, "mnemonic": 2, "reuse": 294},
     'thorough': {"hash": 7203, "hmac": 5281, "pbkdf2": 237, "chunks": 79080, "mnemonic": 7},
 }
 FN = ["sha1", "sha256", "sha256d", "sha512", "ripemd160", "hash160"]
@@ -70,6 +70,15 @@ def cases(ctx):
             key, m = gen.rbytes(r, kl).hex(), gen.rbytes(r, ml).hex()
             for fn in FN:
                 yield {"k": "hmac", "fn": fn, "key": key, "msg": m}
+    # HMAC keys equal to, extending, or prefixes of constants the library itself uses as keys / magic strings
+    for const in (b"Bitcoin seed", b"mnemonic", b"Bitcoin Signed Message:\n", b"BIE1"):
+        for key in (const, const + b"\x00", const + b"x", const + gen.rbytes(r, 9), const[:-1], const * 2, const.upper()):
+            k += 1
+            if k % N != S:
+                continue
+            m = gen.rbytes(r, r.choice([0, 1, 32, 64, 100]))
+            for fn in FN:
+                yield {"k": "hmac", "fn": fn, "key": key.hex(), "msg": m.hex(), "const_key": True}
     rounds = [1, 2, 3, 10, 1000] + ([2048, 4096, 5] if t else [])
     for fn in ("sha1", "sha256", "sha512"):
         for rd in rounds:
@@ -143,6 +152,16 @@ def cases(ctx):
                 for shape in ([m.hex(), ""], ["", m.hex()], [m[:cut].hex(), "", m[cut:].hex()], [m[:cut].hex(), m[cut:].hex(), "", ""], [""], ["", ""]):
                     yield {"k": "chunks", "kind": kind, "chunks": shape, "reverse": rev, "reuse": True, "empty_chunks": True}
                     yield {"k": "chunks", "kind": kind, "chunks": shape, "reverse": rev, "empty_chunks": True}
+    # clone / clone_from between adapter objects whose reverse flags differ
+    for L in [0, 1, 55, 64, 65, 130]:
+        k += 1
+        if k % N != S and not t:
+            continue
+        m = gen.rbytes(r, L)
+        cut = r.randrange(L + 1)
+        for kind in kinds[:3]:
+            for rev in (False, True):
+                yield {"k": "chunks", "kind": kind, "chunks": [m[:cut].hex(), m[cut:].hex()], "reverse": rev, "cloned": True}
     for _ in range(12000 if t else 20):
         m = gen.rbytes(r, r.choice([64, 65, 127, 128, 129, 200, 1000]))
         cuts = sorted(r.randrange(len(m) + 1) for _ in range(r.choice([2, 3, 5, 9])))
@@ -206,6 +225,8 @@ def judge(ctx, case):
         exp = hashes.hmac(case["fn"], key, m).hex()
         bs = hashes.FUNCS[case["fn"]][1]
         ctx.hit("hmac_key_%s_block" % ("lt" if len(key) < bs else "eq" if len(key) == bs else "gt"))
+        if case.get("const_key"):
+            ctx.hit("hmac_key_related_to_a_library_constant")
         if r.get("ok") != exp:
             ctx.viol("HMAC-%s differs from the reference (key %s block size)" % (case["fn"], "shorter than" if len(key) < bs else "equal to" if len(key) == bs else "longer than"), {"got": str(r.get("ok", r.get("panic")))[:200], "exp": exp})
     elif k == "pbkdf2":
@@ -254,6 +275,18 @@ def judge(ctx, case):
             ctx.hit("reversed")
         if case.get("empty_chunks"):
             ctx.hit("empty_chunks")
+        if case.get("cloned"):
+            ctx.hit("cloned_adapter")
+            rc = ctx.call({"op": "digest_chunks", "kind": case["kind"], "chunks": case["chunks"], "reverse": case["reverse"], "cloned": True})
+            outs = rc.get("ok")
+            if not isinstance(outs, list) or len(outs) != 3:
+                ctx.viol("streaming adapter %s could not be cloned" % case["kind"], {"resp": str(rc)[:200]})
+                return
+            for o_, what in zip(outs, ("the source itself", "the target of clone_from (its own flag differed)", "the clone()")):
+                ctx.ev()
+                if o_ != exp.hex():
+                    ctx.viol("streaming adapter %s (%s output): %s gives a different digest" % (case["kind"], "reversed" if case["reverse"] else "plain", what), {"got": o_, "exp": exp.hex()})
+            return
         if case.get("reuse"):
             ctx.hit("reuse")
             outs = r.get("ok")
